@@ -155,6 +155,21 @@ def run(chk):
     reb = [n for n in fn.body if isinstance(n, ast.Assign) and 'phid' in stores_in(n) and n.lineno > L.lineno]
     chk.check(okp and not reb, 'C12-R3', HOD, Q, 'pinds = _searchsorted_parallel(hid, phid) after the re-sort', '',
               f'pinds is {unparse(pin[0].value) if pin else None} / computed before the re-sort: particles would point at pre-sort rows', node=pin[0] if pin else fn)
+    # ids are compared exactly: both sides of the sorted search are integer buffers (a float64 buffer rounds ids >= 2**53,
+    # so two halos collapse to one id and the particle points at the wrong row)
+    INT = ('int', 'np.int64', 'np.uint64', 'np.intp', 'np.int_', "'i8'", "'u8'", 'np.longlong')
+    for nm in ('hid', 'phid'):
+        al = [n for n in walk_no_nested(fn) if isinstance(n, ast.Assign) and len(n.targets) == 1 and unparse(n.targets[0]) == nm
+              and isinstance(n.value, ast.Call) and (dotted(n.value.func) or '').startswith('np.')
+              and (dotted(n.value.func) or '').split('.')[-1] in ('empty', 'zeros', 'ones', 'full')]
+        for a in al:
+            dt = [k.value for k in a.value.keywords if k.arg == 'dtype'] or (list(a.value.args[1:2]) if dotted(a.value.func) in ('np.empty', 'np.zeros', 'np.ones') else [])
+            okd = bool(dt) and unparse(dt[0]) in INT
+            chk.check(okd, 'C12-R3', HOD, Q, f'{nm} is an integer buffer (ids compared exactly)', unparse(a.value)[:60],
+                      f'{nm} = {unparse(a.value)[:70]}: not an integer array, the ids are stored as float64 and ids >= 2**53 that differ by less than an ulp '
+                      'become equal: the sorted search returns the row of another halo', node=a)
+        if not al:
+            chk.assumed('C12-R3', HOD, Q, f'{nm} is an integer buffer (ids compared exactly)', f'{nm} is not built by a numpy constructor with a default float type; its element type is that of the data it is built from', node=fn)
     sp = src.func(HOD, '_searchsorted_parallel')
     oks, whys, okcov = _lookup_kernel(sp)
     chk.check(oks, 'C12-R3', HOD, '_searchsorted_parallel', 'res[i] = searchsorted(a, b[i]) for every i, iteration-private', '',
